@@ -105,6 +105,9 @@ pub struct CaseCfg {
     pub repeat_subject: bool,
     /// the subject comes before the pad (then the pad is the straddling item)
     pub subject_first: bool,
+    /// the subject is the only attribute path of the request (so it is the first item of the
+    /// first message)
+    pub subject_alone: bool,
     pub n_events: usize,
     pub event_len: usize,
 }
@@ -153,6 +156,7 @@ pub fn gen_case(seed: u64) -> CaseCfg {
         limited: rng.chance(1, 5),
         repeat_subject: rng.chance(1, 6),
         subject_first: rng.chance(1, 5),
+        subject_alone: rng.chance(1, 6),
         n_events: 2 + rng.usize(14),
         event_len: rng.usize(160),
     }
@@ -283,7 +287,10 @@ fn request(c: &CaseCfg) -> ReadRequest {
         paths.push(subj.clone());
     }
     if c.repeat_subject {
-        paths.push(subj);
+        paths.push(subj.clone());
+    }
+    if c.subject_alone {
+        paths = vec![subj];
     }
     ReadRequest {
         attr_paths: Some(paths),
